@@ -42,6 +42,7 @@ type Result struct {
 	Outcomes    map[string]int64       `json:"outcomes,omitempty"`
 	Violations  []Violation            `json:"violations,omitempty"`
 	Capped      []string               `json:"capped,omitempty"`
+	Infra       []string               `json:"infra,omitempty"`
 	Counters    map[string]int64       `json:"counters,omitempty"`
 	Notes       map[string]interface{} `json:"notes,omitempty"`
 }
@@ -105,6 +106,15 @@ func (c *Ctx) Cap(what string) {
 		}
 	}
 	c.res.Capped = append(c.res.Capped, what)
+}
+
+// Infra records a harness/infrastructure failure (exit 2, never a verdict).
+func (c *Ctx) Infra(msg string) {
+	c.mu.Lock()
+	if len(c.res.Infra) < 5 {
+		c.res.Infra = append(c.res.Infra, msg)
+	}
+	c.mu.Unlock()
 }
 
 // Eval counts n executed cases.
@@ -429,6 +439,10 @@ func Main(chk Check) {
 				infra = true
 			}
 			continue
+		}
+		for _, m := range r.Infra {
+			fmt.Fprintf(os.Stderr, "INFRA: worker %d: %s\n", i, m)
+			infra = true
 		}
 		total.Evals += r.Evals
 		total.DistinctN += r.DistinctN
